@@ -349,3 +349,12 @@ _EXTRA12.update({
 })
 for _k, _v in _EXTRA12.items():
     PROPS[_k]['text'] = PROPS[_k]['text'].rstrip() + _v
+
+_EXTRA13 = {
+ 'C09': ' An opaque gradient delivers opaque pixels: packed channels are clamped (C09-R14, defect F53 - fixed); an opaque mask still clips (C09-R15 = C03-R10).',
+ 'C11': ' A zero homogeneous coordinate is reported on every path (C11-R17); division digit shortcuts are strict (C11-R18).',
+ 'C13': ' Packed channels are clamped (C13-R16, defect F53 - fixed); the walker position is narrowed only under the repeat masks (C13-R17).',
+ 'C15': ' The operand data parked by pixman_op is released on every exit (C15-R14).',
+}
+for _k, _v in _EXTRA13.items():
+    PROPS[_k]['text'] = PROPS[_k]['text'].rstrip() + _v
